@@ -53,7 +53,8 @@ CONSTANTS MaxList,     \* bound on the lists of the pair family
           MaxShift,    \* shift counts 0..MaxShift
           Fams,        \* families explored: subset of {"pair","flat","range","func","perm","num","bits",
                        \*                                "wide","xperm","pow","powbig"}
-          MaxWide,     \* bound on the lists of the wide pair family
+          MaxWide,     \* bound on the lists of the wide pair family ...
+          MaxWideB,    \* ... and on the shorter list of each pair
           MaxXPerm,    \* bound on the multisets of wide numbers / tiny decimals / texts
           PowExps,     \* exponents of the pow family
           Export       \* TRUE: print (arguments, expected) for every tuple
@@ -137,7 +138,9 @@ Pick2 ==
        [] fam = "bits"  -> /\ lb' = << >>                 \* (a, b) pairs, and (a, count)
                            /\ \/ b' \in Boundary /\ n' = 0
                               \/ b' = a /\ n' \in 1..MaxShift
-       [] fam = "wide"  -> lb' \in ListsOver(WU, MaxWide) /\ b' = 0 /\ n' = 0
+       \* (one of the two lists is short: la <= MaxWide with lb <= MaxWideB, and la <= MaxWideB with lb <= MaxWide)
+       [] fam = "wide"  -> /\ lb' \in ListsOver(WU, IF Len(la) <= MaxWideB THEN MaxWide ELSE MaxWideB)
+                           /\ b' = 0 /\ n' = 0
        [] fam = "xperm" -> lb' = << >> /\ b' = 0 /\ n' = 0
        [] fam = "pow"   -> lb' = << >> /\ b' = 0 /\ n' \in PowExps
        [] fam = "powbig" -> lb' = << >> /\ b' = 0 /\ n' \in 1..Len(BigExps)
@@ -483,6 +486,8 @@ PowLaws ==
        /\ r = Mul(Pow(A, h), Pow(A, n - h))
        /\ r = Mul(Pow(A, n - 1), A)
        /\ PowX(A, FromInt(n)) = r
+       /\ PowSmallMag(NAbs(a), n) = r.mag /\ MulSmallF(r.mag, NAbs(a)) = Mul(r, Abs(A)).mag
+       /\ PowCost(NAbs(a), n) >= (n \div MaxJ(NAbs(a))) * (Len(r.mag) \div 2)
        \* the conditions used for the powers TLC cannot multiply out: true of the power ...
        /\ PowPlausible(r, A, n) /\ ResiduesAgree(r, A, n) /\ SizeBracket(r, A, n) /\ r.sg = SignOfPow(A, n)
        /\ IsTen(A) => r = PowOfTen(A, n)
